@@ -79,3 +79,41 @@ theorem majorityStrand_const (s : Strand) (l : List Strand) (hl : ∀ x ∈ l, x
     · exact hl x hx)
 
 end BioCantor.Proofs.Gb
+
+namespace BioCantor.Proofs.Gb
+open BioCantor BioCantor.Spec.Qual BioCantor.Spec.Gb BioCantor.Model.Gb
+
+/-! ### shape of `gene_to_feature` -/
+
+theorem geneToFeatures_shape (cfg : Cfg) (seq : Option Str) (g : Gene) (ri : List Rec)
+    (h : geneToFeatures cfg seq g = .ok ri) :
+    ∃ strand bounds q0 rest,
+      majorityStrand (g.txs.map (·.strand)) = some strand ∧ geneBounds g = some bounds ∧
+      geneExportQuals g = .ok q0 ∧
+      mapMR (transcriptToFeatures cfg seq strand (geneSymbolOf g) (geneTagOf g)) g.txs = .ok rest ∧
+      ri = geneRecord strand bounds q0 g :: rest.flatten := by
+  unfold geneToFeatures at h
+  split at h
+  · next strand bounds hm hb =>
+    split at h
+    · exact absurd h (by simp)
+    · next q0 hq =>
+      split at h
+      · exact absurd h (by simp)
+      · next rest hr =>
+        simp only [Except.ok.injEq] at h
+        exact ⟨strand, bounds, q0, rest, hm, hb, hq, hr, h.symm⟩
+  · exact absurd h (by simp)
+
+theorem fcToFeatures_shape (cfg : Cfg) (f : FColl) (ri : List Rec) (h : fcToFeatures cfg f = .ok ri) :
+    ∃ strand bounds,
+      majorityStrand (f.feats.map (·.strand)) = some strand ∧ fcBounds f = some bounds ∧
+      ri = fcRecord strand bounds f :: f.feats.flatMap (featureToFeatures cfg strand (fcSymbolOf f) f.locusTag) := by
+  unfold fcToFeatures at h
+  split at h
+  · next strand bounds hm hb =>
+    simp only [Except.ok.injEq] at h
+    exact ⟨strand, bounds, hm, hb, h.symm⟩
+  · exact absurd h (by simp)
+
+end BioCantor.Proofs.Gb
